@@ -35,7 +35,8 @@ NONTRIVIAL = ["cell"]
 EXHAUSTIVE = {"quick": False, "thorough": True}
 DEADLINE = {"quick": 90, "thorough": 1200}
 
-QUICK_SC = ["ssl3-rsa", "tls10-dhe_rsa", "tls12-ecdhe_rsa-clientauth",
+QUICK_SC = ["ssl3-rsa", "ssl3-ecdhe_rsa-clientauth", "ssl3-rsa-reqcert-nocert",
+            "tls10-dhe_rsa", "tls12-ecdhe_rsa-clientauth",
             "tls12-resume-ticket", "tls12-resume-id", "tls12-srp",
             "tls13-rsa", "tls13-hrr",
             "tls13-resume-ticket", "tls13-clientauth"]
@@ -272,6 +273,18 @@ def post_state(ctx, key, W, who, conn, sock, link):
     if not conn.closed:
         ctx.violation(dict(key, clause="not_closed", who=who), W,
                       "%s not closed after failure" % who)
+        return
+    # `closed` is already true while a handshake is running: what shows
+    # that a failed connection was shut down is the reset record layer and,
+    # unless the application keeps it, the closed socket
+    if tuple(conn.version) != (0, 0) or \
+            (conn.closeSocket and not sock.closed):
+        ctx.violation(dict(key, clause="not_shut_down", who=who,
+                           socket_open=bool(conn.closeSocket and
+                                            not sock.closed)), W,
+                      "%s raised without shutting the connection down "
+                      "(version %r, socket closed: %r)" % (
+                          who, conn.version, sock.closed))
         return
     try:
         # bytes that were received and authenticated before the failure may
@@ -913,8 +926,31 @@ def run_case(ctx, cid, P):
                                    P.get("script", "A"))
         ctx.ev()
         if tc.status != "done" or ts.status != "done":
-            ctx.inconc("honest script failed: %s %r %r" % (sc.name, tc.exc,
-                                                           ts.exc))
+            bad = None
+            for who, prog, t in (("client", pc, tc), ("server", ps, ts)):
+                if t.status != "done" and prog.hs_done and prog.ops and \
+                        prog.ops[-1][0] in ("close", "read_eof", "read",
+                                            "readmin"):
+                    bad = (who, prog.ops[-1][0], t)
+            if bad is not None:
+                # nothing was injected: the script's own orderly end (the
+                # peer's close_notify, then the end of the transport) was
+                # reported as a failure
+                who, op, t = bad
+                ctx.violation({"clause": "orderly_close_reported_as_failure",
+                               "who": who, "op": op,
+                               "exc": type(t.exc).__name__ if t.exc
+                               else t.status,
+                               "fam": "tls13" if sc.ver == (3, 4)
+                               else "le12"},
+                              {"case": cid, "scenario": sc.name,
+                               "ops": [list(map(str, o)) for o in
+                                       pc.ops + ps.ops]},
+                              "honest script: %s %s ended with %r" % (
+                                  who, op, t.exc))
+            else:
+                ctx.inconc("honest script failed: %s %r %r" % (
+                    sc.name, tc.exc, ts.exc))
         else:
             ctx.count("controls")
             ctx.maxi("io_calls", p.csock.n_recv + p.csock.n_send +
